@@ -236,6 +236,18 @@ def check(an, rep, tier):
             'of length 2', st3,
             '' if st3 == 'ok' else 'inconsistent option lengths are not '
             'rejected (' + d3 + ')')
+    # an explicit dimension d is the reference length for every list option
+    from ..values import INT as _INT
+    for la, dd, bad in ((2, 3, True), (1, 3, True), (3, 3, False)):
+        I = interp.Interp(prog, {})
+        I.run_function(fn, {'a': LIST([FLOAT() for _ in range(la)]),
+                            'd': _INT(dd)})
+        st3, d3 = dom3(I.raises, I.entry_returns, bad)
+        rep.add('P-domain', 'grid.grid_prep_opts', '%s a of length %d with '
+                'd=%d' % ('rejects' if bad else 'accepts', la, dd), st3,
+                '' if st3 == 'ok' else 'an option list whose length differs '
+                'from the explicit dimension must be rejected, a matching '
+                'one accepted (' + d3 + ')')
     from .. import rules_proto as _RPZ
     _RPZ.check_none_vs_zero(prog, rep, modules={'grid', 'stat'})
     from .. import rules_api as _RA
@@ -245,5 +257,5 @@ def check(an, rep, tier):
     rep.floor('F-inverse', 2, 'round trips')
     rep.floor('F-endpoint', 4, 'endpoints')
     rep.floor('P-two-sided', 5, 'clamps')
-    rep.floor('P-domain', 6, 'rejections')
+    rep.floor('P-domain', 9, 'rejections')
     rep.floor('S-ret', 8, 'result shapes')
